@@ -143,6 +143,29 @@ class Interp(Run, StmtMixin, ExprMixin, CallMixin, BuiltinMixin, LoopMixin, Spec
                 if r2 == "unsat":
                     ob.result = "proved"
                     ob.reason = "cvc5"
+            if ob.result == "unknown":
+                # quantified assumptions (list shifts, membership) often make z3
+                # answer `unknown` on satisfiable queries.  Retry on the
+                # quantifier-free part of the path condition: unsat there is
+                # still a proof; sat there is only a CANDIDATE counterexample
+                # (weak), which counts as a violation only if it replays natively.
+                s2 = z3.Solver()
+                s2.set("timeout", self.opts.get("timeout_ms", 10000))
+                for a in self.class_axioms():
+                    s2.add(a)
+                for p in self.pc:
+                    if not has_quantifier(p):
+                        s2.add(p)
+                s2.add(z3.Not(ob.goal))
+                r3 = s2.check()
+                if r3 == z3.unsat:
+                    ob.result = "proved"
+                    ob.reason = "qf-subset"
+                elif r3 == z3.sat and not has_quantifier(ob.goal):
+                    ob.result = "refuted"
+                    ob.reason = "weak: counter-model of the quantifier-free part of the path condition"
+                    ob.model = self.extract_model(s2.model())
+                    ob.model["__weak__"] = True
         return ob
 
     def extract_model(self, m):
@@ -155,6 +178,15 @@ class Interp(Run, StmtMixin, ExprMixin, CallMixin, BuiltinMixin, LoopMixin, Spec
                     continue
                 v = m.eval(self.to_val(tv), model_completion=True)
                 out[name] = model_value(v)
+                if tv.hint == "list":
+                    # contents of a list parameter in the pre-state
+                    a = Val.a(tv.r)
+                    h0 = self.entry_heap
+                    ln = m.eval(z3.Select(h0.cur["llen"], a), model_completion=True)
+                    if z3.is_int_value(ln) and 0 <= ln.as_long() <= 8:
+                        row = z3.Select(h0.cur["lelem"], a)
+                        out[name] = {"list": [model_value(m.eval(z3.Select(row, i), model_completion=True))
+                                              for i in range(ln.as_long())]}
             except Exception as e:  # pragma: no cover
                 out[name] = f"<{e}>"
         out["__path__"] = [f"{l}={d}" for l, d in self.branch_log]
@@ -165,6 +197,9 @@ class Interp(Run, StmtMixin, ExprMixin, CallMixin, BuiltinMixin, LoopMixin, Spec
     def sym_param(self, name, t):
         v = fresh("p_" + name, Val)
         hint = t if t and "|" not in t and t != "any" else None
+        if hint and "[" in hint:
+            self.elem_hints[str(v)] = hint[hint.index("[") + 1:-1]
+            hint = hint[: hint.index("[")]
         tv = TV("val", v, hint)
         self.assume(z3.Implies(Val.is_ref(v), Val.a(v) < self.A0))
         if t and t != "any":
@@ -214,7 +249,21 @@ class Interp(Run, StmtMixin, ExprMixin, CallMixin, BuiltinMixin, LoopMixin, Spec
             root.vars[cname] = self.sym_param(cname, ct)
             self.entry_params[cname] = root.vars[cname]
         fr = Frame(parent=root, func=pf)
-        if isinstance(node, ast.Lambda):
+        region = getattr(unit, "region", None)
+        region_node = None
+        if region is not None:
+            # the unit is a statement region of the function (a loop or its
+            # body); its parameters are the live-in variables the contract names
+            rkind, _, rkey = region.partition(":")
+            for nd in ast.walk(node):
+                if isinstance(nd, ast.For) and "for:" + ast.unparse(nd.iter) == rkey:
+                    region_node = nd
+                elif isinstance(nd, ast.While) and "while:" + ast.unparse(nd.test) == rkey:
+                    region_node = nd
+            if region_node is None:
+                raise LookupError(f"region {region} not found in {unit.target}")
+            pnames = list(unit.params)
+        elif isinstance(node, ast.Lambda):
             pnames = [a.arg for a in node.args.args]
         else:
             a = node.args
@@ -241,7 +290,25 @@ class Interp(Run, StmtMixin, ExprMixin, CallMixin, BuiltinMixin, LoopMixin, Spec
             raise PathEnd("precondition unsatisfiable")
         self.cur_frame = fr
         try:
-            if isinstance(node, ast.Lambda):
+            if region_node is not None:
+                val = tv_none()
+                try:
+                    if rkind == "body":
+                        if isinstance(region_node, ast.While):
+                            c = self.eval(region_node.test, fr)
+                            self.assume(self.truthy(c))
+                            if not self.feasible():
+                                raise PathEnd("loop test unsatisfiable")
+                        try:
+                            self.exec_block(region_node.body, fr)
+                        except (BreakSig, ContinueSig):
+                            pass
+                    else:
+                        self.exec_stmt(region_node, fr)
+                except ReturnSig as r:
+                    val = r.value
+                self.final_frame = fr
+            elif isinstance(node, ast.Lambda):
                 val = self.eval(node.body, fr)
             else:
                 try:
@@ -257,6 +324,10 @@ class Interp(Run, StmtMixin, ExprMixin, CallMixin, BuiltinMixin, LoopMixin, Spec
     def post_obligations(self, fr):
         unit = self.unit
         env = dict(self.entry_env)
+        if getattr(unit, "region", None):
+            for k, v in fr.vars.items():
+                env.setdefault(k, v)
+                env["final_" + k] = v
         kind, payload = self.outcome
         if kind == "ret":
             env["result"] = payload
@@ -317,6 +388,21 @@ class Interp(Run, StmtMixin, ExprMixin, CallMixin, BuiltinMixin, LoopMixin, Spec
                                 text=f"raises only {names}", where=f"raise ({pr.origin})")
                 self.solve(ob)
                 self.obligs.append(ob)
+
+
+def has_quantifier(t):
+    seen = set()
+    stack = [t]
+    while stack:
+        x = stack.pop()
+        i = x.get_id()
+        if i in seen:
+            continue
+        seen.add(i)
+        if z3.is_quantifier(x):
+            return True
+        stack.extend(x.children())
+    return False
 
 
 def model_value(v):
